@@ -1,5 +1,27 @@
-import SeedModel.Eval
+/-
+  C02 — evaluation never crashes: it completes or reports a diagnostic.
+
+  The model has a `crash` outcome at exactly the places where the Rust code can panic (a failed `try_lock`, an index or
+  slice out of range, an arithmetic trap, an `expect`/`unreachable`).  G4 (file Lemmas/NoCrash.lean, by induction over all
+  23 evaluator functions from the well-formedness invariant of Lemmas/WF.lean) shows that none of them is reachable,
+  with the single exception the statement itself makes: rendering a value that contains itself.
+-/
+import SeedProofs.Lemmas.NoCrash
 namespace Seed.C02
+open Seed
+
+-- audit: Seed.safeAll Seed.evalProg_safe Seed.evalProg_ok_wf Seed.evalExpr_no_crash Seed.evalStmts_no_crash Seed.bindList_no_index_crash Seed.eq_no_bad Seed.render_no_bad Seed.applyBinOp_safe Seed.callBuiltin_safe Seed.bindNextName_safe Seed.wf_init
+
+/-- **G4.** Whatever the program and the fuel, the only crash evaluation can end in is `print` meeting a container that
+    contains itself (`lock`): no dangling address, no empty scope chain, no out-of-range index, no arithmetic trap. -/
+theorem no_crash (n : Nat) (stmts : List Stmt) (w : List Char) (σ : State) (h : evalProg n stmts = .crash w σ) :
+    w = c!"lock" :=
+  evalProg_no_crash n stmts w σ h
+
+/-- the same for whole runs (lexing and parsing cannot crash in the model at all: their result types have no such outcome) -/
+theorem run_no_crash (n : Nat) (path src : List Char) (h : (run n path src).status = .crashed) :
+    (run n path src).stderr = c!"lock" :=
+  run_crashed_lock n path src h
 
 /-- arithmetic never crashes, also at zero divisors and at the ends of the 64-bit range -/
 theorem arith_no_crash (op : BinaryOp) (loc : Loc) (a b : Int) (σ : State) :
@@ -7,5 +29,18 @@ theorem arith_no_crash (op : BinaryOp) (loc : Loc) (a b : Int) (σ : State) :
   intro w σ'
   unfold arith
   cases op <;> simp only [] <;> (repeat' split) <;> simp
+
+/-- `%`: a zero divisor is a reported error, and `MIN % -1` is the exact value 0 (the pinned tree panicked on both) -/
+theorem mod_zero_is_error (loc : Loc) (a : Int) (σ : State) :
+    arith .Mod loc a 0 σ = .err (intOverflow .Mod loc a 0) σ := by simp [arith]
+theorem mod_min_neg1 (loc : Loc) (σ : State) : arith .Mod loc i64Min (-1) σ = .ok (.int 0) σ := by
+  simp [arith, i64Min]
+
+/-- the `lock` exception is not vacuous: a list stored inside itself is well-formed, and printing it is the one crash -/
+example : (run 100 c!"t.sd" c!"x := [1]\nx[0] = x\nprint(x)\n").status = .crashed := by decide +kernel
+
+/-- …while comparing, concatenating and op-assigning through aliases does not crash (these aborted the pinned tree) -/
+example : (run 100 c!"t.sd" c!"a := [[]]\nprint([a] == a)\n").status = .success := by decide +kernel
+example : (run 100 c!"t.sd" c!"xs := [[1]]\nxs[0] += xs\nprint(xs[0][1] === xs)\n").status = .success := by decide +kernel
 
 end Seed.C02
